@@ -270,6 +270,7 @@ func c08FromPlaceholder(c *Ctx) {
 }
 
 func runC08(c *Ctx) {
+	c08Reentrancy(c)
 	c08FromPlaceholder(c)
 	srcs := c08SourceTypes(c.Thorough)
 	c.Note("source_types", fmt.Sprint(len(srcs)))
